@@ -57,6 +57,17 @@ def _cases(draw, route=None):
         res = _rename_lexicons(res, ren)
         resources.append(res)
         styles.append(draw(xmlw.styles()))
+    if draw(st.integers(0, 2)) == 0:
+        # another version of the first lexicon (same ids throughout) as a resource of its own:
+        # "already installed" is a matter of id AND version
+        first = next((lx for lx in resources[0]['lexicons'] if not lx.get('extends')), None)
+        if first is not None:
+            sib = copy.deepcopy(first)
+            sib['version'] = first['version'] + draw(st.sampled_from(['.b', '-0', 'z']))
+            where = draw(st.integers(0, len(resources)))
+            resources.insert(where, {'lmf_version': resources[0]['lmf_version'],
+                                     'lexicons': [sib]})
+            styles.insert(where, draw(xmlw.styles()))
     orphan = draw(st.booleans())
     return {'resources': resources, 'styles': styles, 'route': route, 'orphan_extension': orphan}
 
@@ -77,6 +88,9 @@ def _classify(case):
             tags.append('base+extension-in-one-file')
         if len(r['lexicons']) > 1:
             tags.append('multi-lexicon-file')
+    ids = [lx['id'] for r in case['resources'] for lx in r['lexicons']]
+    if len(set(ids)) < len(ids):
+        tags.append('two-versions-of-one-id')
     return case['route'] != 'xml', sorted(set(tags))
 
 
